@@ -932,3 +932,62 @@ func c20noReaderAlwaysPrunes(c *an.Ctx) {
 	r.AddSites(n)
 	r.Floor(4, "implementations of MayBeInFragment")
 }
+
+func init() {
+	old := All["C20"].Run
+	All["C20"].Run = func(c *an.Ctx) {
+		old(c)
+		c20everyHashedWordReported(c)
+	}
+	All["C20"].Rules += " R14"
+	addLevel("C20", "A tokenizer reports every word it has hashed: once Next has folded a byte into the hash it returns true for that word (no word is dropped by length or content), because the bloom-filter readers treat a phrase without hashes as 'cannot exist'.")
+}
+
+// c20everyHashedWordReported — C20.R14.  The writers add the hash of every word to the block's
+// bloom filter, the readers look the words of the phrase up and answer "cannot match" when the
+// phrase yields no hash at all.  A Next that hashes a word and then skips it (continue / reset)
+// makes a phrase consisting of such words unmatchable in every block, also the one that holds it.
+func c20everyHashedWordReported(c *an.Ctx) {
+	const TK = "lib/tokenizer"
+	r := c.Rule("C20.R14", "K-ORDER", TK+": in every Next, a hash update is followed by `return true` on every path (the word is never skipped after it was hashed)")
+	pkg := c.P.ByPath[an.Mod+TK]
+	if pkg == nil {
+		r.Unresolved(TK)
+		return
+	}
+	n := 0
+	for _, src := range c.P.AllDecls() {
+		if src.Pkg != pkg || src.Decl.Recv == nil || src.Decl.Name.Name != "Next" || src.Decl.Body == nil {
+			continue
+		}
+		if strings.HasSuffix(c.P.Fset.Position(src.Decl.Pos()).Filename, "_test.go") {
+			continue
+		}
+		f := c.P.Fn(src)
+		if f == nil {
+			continue
+		}
+		upd := f.Find(an.MNode("hashValue ^= …", func(g *an.Fn, m ast.Node) bool {
+			as, ok := m.(*ast.AssignStmt)
+			if !ok || as.Tok.String() != "^=" || len(as.Lhs) != 1 {
+				return false
+			}
+			sel, ok := ast.Unparen(as.Lhs[0]).(*ast.SelectorExpr)
+			return ok && strings.Contains(strings.ToLower(sel.Sel.Name), "hash")
+		}))
+		if upd.Len() == 0 {
+			continue
+		}
+		n++
+		retTrue := f.Find(an.MReturn("return true", func(g *an.Fn, rs *ast.ReturnStmt) bool {
+			if len(rs.Results) != 1 {
+				return false
+			}
+			tv, ok := g.Info.Types[rs.Results[0]]
+			return ok && tv.Value != nil && tv.Value.String() == "true"
+		}))
+		f.FollowedBy(r, upd, retTrue, nil, "a hashed word is reported")
+	}
+	r.AddSites(n)
+	r.Floor(2, "Next methods that hash words in place")
+}
